@@ -216,7 +216,6 @@ Section UB.
   Qed.
 
   (* ---- the over-estimate FIB starts from *)
-  Definition fib_start_ok : Prop := 1 # 10000 <= 1 - g \/ maxl (Rall m) <= 0.
 
   Lemma Rall_in : forall s a, (s < S)%nat -> (a < A)%nat -> In (Rw m s a) (Rall m).
   Proof.
@@ -224,26 +223,20 @@ Section UB.
     apply (in_map (fun a => Rw m s a)). apply in_seq. fold A. lia.
   Qed.
 
-  Lemma fib_start_supersol : forall c, fib_start_ok -> tail_lo c -> (forall s a, (s < S)%nat -> (a < A)%nat -> c * (1 - g) <= Rw m s a) ->
+  Lemma fib_start_supersol : forall c, tail_lo c -> (forall s a, (s < S)%nat -> (a < A)%nat -> c * (1 - g) <= Rw m s a) ->
     tge_c c (fib_start m) /\ tle (fib_op m (fib_start m)) (fib_start m).
   Proof.
-    intros c Hok Hc Hlo. pose proof (Hg m Hwf) as [G0 G1]. fold g in G0, G1.
+    intros c Hc Hlo. pose proof (Hg m Hwf) as [G0 G1]. fold g in G0, G1.
     pose proof (HS m Hwf) as HSp. pose proof (HA m (wf_pomdp_weaken m Hwf)) as HAp. fold S in HSp. fold A in HAp.
     set (R := maxl (Rall m)). set (d := denom m). set (k := Qred (R / d)).
-    assert (Hd : 0 < d /\ 1 - g <= d /\ (1 # 10000 <= 1 - g -> d == 1 - g)).
-    { unfold d, denom. fold g. split; [| split].
-      - eapply Qlt_le_trans; [| apply Q.le_max_l]. reflexivity.
-      - apply Q.le_max_r.
-      - intros H. apply Q.max_r. exact H. }
-    destruct Hd as [Hd0 [Hd1 Hd2]].
+    assert (Hd2 : d == 1 - g) by (unfold d; apply (denom_eq m Hwf)).
+    assert (Hd0 : 0 < d) by lra. assert (Hd1 : 1 - g <= d) by lra.
     assert (HR : forall s a, (s < S)%nat -> (a < A)%nat -> Rw m s a <= R).
     { intros s a Hs Ha. apply maxl_ub. apply Rall_in; assumption. }
     assert (Hk : k == R / d) by (unfold k; apply Qred_correct).
     assert (Hkd : k * d == R) by (rewrite Hk; field; lra).
     assert (Hk1 : R <= k * (1 - g)).
-    { destruct Hok as [H|H].
-      - rewrite <- (Hd2 H). lra.
-      - fold R in H. assert (k <= 0) by (rewrite Hk; apply Qle_shift_div_r; lra). nra. }
+    { rewrite <- Hd2. lra. }
     assert (Hck : c <= k).
     { pose proof (Hlo 0%nat 0%nat HSp HAp) as H0. pose proof (HR 0%nat 0%nat HSp HAp) as H1.
       assert (c * (1 - g) <= k * (1 - g)) by lra. nra. }
